@@ -20,7 +20,7 @@ use std::collections::{BTreeMap, BTreeSet, HashMap};
 use vcore::{Violation, util};
 
 use crate::cells::{
-    Body, BodyKind, Prepared, Principal, Target, in_focus, TargetKind, Variant, access, bodies, effect_at, has_params, nowhere, principals,
+    Body, BodyKind, NAMED, NAMED_CLASS, Prepared, Principal, Target, in_focus, TargetKind, Variant, access, bodies, effect_at, has_params, nowhere, principals,
     sha3_hex, targets,
 };
 use crate::model::{Access, DBS, Event, Model, Root, Status, token};
@@ -95,6 +95,13 @@ pub async fn apply_event(w: World, m: &Model, e: Event) -> Result<World, String>
                 return Err(format!("db.set_api_key echoed a supplied key: {r}"));
             }
         }
+        Event::SetKeyGen { db } => {
+            let r = w.admin_rpc("/", "db.set_api_key", json!({"name": DBS[db]})).await?;
+            match r.get("api_key").and_then(|k| k.as_str()) {
+                Some(k) if !k.is_empty() => crate::model::set_generated(db, m.dbs[db].issued + 1, k.to_string()),
+                _ => return Err(format!("db.set_api_key without api_key returned no generated key: {r}")),
+            }
+        }
         Event::RemoveKey { db } => {
             let r = w.admin_rpc("/", "db.remove_api_key", json!({"name": DBS[db]})).await?;
             if r != json!(true) {
@@ -126,6 +133,7 @@ pub async fn build_world(root: Root, history: &[Event]) -> Result<(World, Model,
     // every world starts at the same logical time (the twin comparison needs
     // identical timestamps in identical histories)
     anda_db_utils::verif::set_clock(Some((1_700_000_000_000, 1)));
+    crate::model::clear_generated();
     let mut w = World::boot(root.has_admin().then_some(ADMIN_KEY)).await?;
     let mut m = Model::new(root.has_admin());
     let mut n = 0;
@@ -331,6 +339,8 @@ impl Ctx<'_> {
             None => "-",
             Some(Variant::Minimal) => "minimal",
             Some(Variant::BadParams) => "bad-params",
+            Some(Variant::GenKeyFor(i)) => ["gen-a", "gen-b", "gen-primary", "gen-missing"][i],
+            Some(Variant::ExplicitKeyFor(i)) => ["exp-a", "exp-b", "exp-primary", "exp-missing"][i],
         };
         let mut h: u64 = 0xcbf29ce484222325;
         for part in [
@@ -429,18 +439,25 @@ pub async fn run_state(tables: &Tables, root: Root, history: &[Event], select: &
             cx.rep.methods_without_params.insert(n.to_string());
         }
     }
-    let mut ps = principals(&model);
-    if select.lite {
-        let dropped = ["timing-dummy", "empty-bearer", "malformed:basic", "malformed:no-token"];
-        ps.retain(|p| !dropped.contains(&p.label.as_str()));
-    }
+    // principals are recomputed after every world build: a server-generated
+    // key differs from world to world
+    let lite = select.lite;
+    let mk_ps = |m: &Model| {
+        let mut ps = principals(m);
+        if lite {
+            let dropped = ["timing-dummy", "empty-bearer", "malformed:basic", "malformed:no-token"];
+            ps.retain(|p| !dropped.contains(&p.label.as_str()));
+        }
+        ps
+    };
     cx.lite = select.lite;
     let ts = targets();
 
-    if select.wants("reject") || select.wants("restart-lookahead") {
+    if select.wants("reject") || select.wants("restart-lookahead") || select.wants("keyless-restart") {
         match build_world(root, history).await {
             Ok((mut w, m, n)) => {
                 debug_assert_eq!(m, model);
+                let ps = mk_ps(&model);
                 cx.rep.add("events_executed", n);
                 cx.rep.add("worlds_built", 1);
                 if let Err(e) = probe_canon(&mut w, &model).await {
@@ -454,6 +471,7 @@ pub async fn run_state(tables: &Tables, root: Root, history: &[Event], select: &
                 // tried once more on every database. What was persisted about
                 // the bindings (a revocation above all) must give the same
                 // decisions as the live instance gave.
+                let (store, ctl) = (w.store.clone(), w.ctl.clone());
                 if select.wants("restart-lookahead") {
                     match w.restart().await {
                         Ok(mut w2) => {
@@ -465,6 +483,13 @@ pub async fn run_state(tables: &Tables, root: Root, history: &[Event], select: &
                     }
                 } else {
                     w.shutdown().await;
+                }
+                // Second lookahead: the operator restarts the instance WITHOUT
+                // an admin key. The documented rule (state.rs, auth.rs rule 1)
+                // is that such a start is refused while any per-database
+                // binding exists, whatever is open or registered.
+                if select.wants("keyless-restart") && model.admin {
+                    phase_keyless_restart(&mut cx, store, ctl, &ps, &ts).await;
                 }
             }
             Err(e) => cx.rep.machinery.push(e),
@@ -478,6 +503,7 @@ pub async fn run_state(tables: &Tables, root: Root, history: &[Event], select: &
         let mut records: Vec<TenantRecord> = Vec::new();
         match build_world(root, history).await {
             Ok((mut w, _, n)) => {
+                let ps = mk_ps(&model);
                 cx.rep.add("events_executed", n);
                 cx.rep.add("worlds_built", 1);
                 phase_tenant(&mut cx, &mut w, &phase, d, &ps, &ts, &bs, &mut records).await;
@@ -493,6 +519,7 @@ pub async fn run_state(tables: &Tables, root: Root, history: &[Event], select: &
             let mut twin: Vec<TenantRecord> = Vec::new();
             match build_world(root, history).await {
                 Ok((mut w, _, n)) => {
+                    let ps = mk_ps(&model);
                     cx.rep.add("events_executed", n);
                     cx.rep.add("worlds_built", 1);
                     match perturb_other(&mut w, o).await {
@@ -511,6 +538,7 @@ pub async fn run_state(tables: &Tables, root: Root, history: &[Event], select: &
     if select.wants("admin") {
         match build_world(root, history).await {
             Ok((mut w, _, n)) => {
+                let ps = mk_ps(&model);
                 cx.rep.add("events_executed", n);
                 cx.rep.add("worlds_built", 1);
                 phase_admin(&mut cx, &mut w, &ps, &ts, &bs).await;
@@ -792,6 +820,62 @@ async fn phase_reject(cx: &mut Ctx<'_>, w: &mut World, ps: &[Principal], ts: &[T
             }
         }
     }
+}
+
+/// Starts a new instance over the same store WITHOUT an admin key.
+async fn phase_keyless_restart(
+    cx: &mut Ctx<'_>,
+    store: std::sync::Arc<vcore::ctlstore::CtlStore>,
+    ctl: std::sync::Arc<vcore::ctlstore::Ctl>,
+    ps: &[Principal],
+    ts: &[Target],
+) {
+    let m = cx.model;
+    let phase = "keyless-restart";
+    let bound: Vec<usize> = (0..2).filter(|d| m.dbs[*d].bound.is_some()).collect();
+    cx.rep.add("evaluations", 1);
+    cx.rep.add("keyless_restarts", 1);
+    let started = World::boot_over(store, ctl, None).await;
+    let mut w = match started {
+        Err(_) => {
+            if bound.is_empty() {
+                cx.rep.add("keyless_start_refused_without_bindings", 1);
+            }
+            return;
+        }
+        Ok(w) => w,
+    };
+    if let Some(&d) = bound.first() {
+        // the instance serves everybody as admin although a binding exists:
+        // show what an anonymous caller reaches
+        let anon = &ps[0];
+        let t = ts.iter().find(|t| t.kind == TargetKind::Db(d)).unwrap_or(&ts[0]);
+        let mut steps = Vec::new();
+        if !m.dbs[d].status.is_open() {
+            let r = rpc("/", Auth::None, Enc::Json, "db.open", json!({"name": DBS[d]}));
+            let (resp, _) = w.send(&r).await;
+            steps.push(json!({"request": r.to_json(), "response": resp.to_json()}));
+        }
+        let req = rpc(&t.path, Auth::None, Enc::Json, "doc.get", json!({"collection": COLLECTION, "_id": 1}));
+        let (resp, _) = w.send(&req).await;
+        let label = format!("{}-bound", m.dbs[d].status.label().trim_start_matches("open-").replace("warm", "open").replace("cold", "open"));
+        cx.violate(
+            format!("C14|keyless-start-exposes-bound-db|{label}"),
+            format!(
+                "an instance restarted without an admin key starts although {} has a key bound; an anonymous caller then gets {} for doc.get on it",
+                DBS[d], resp.status
+            ),
+            phase,
+            anon,
+            t,
+            Some(Enc::Json),
+            None,
+            &req,
+            &resp,
+            json!({"history_suffix": "restart without admin key", "steps_before": steps}),
+        );
+    }
+    w.shutdown().await;
 }
 
 /// After a restart of the untouched reject world: every credential once more
@@ -1149,6 +1233,52 @@ async fn phase_admin(cx: &mut Ctx<'_>, w: &mut World, ps: &[Principal], ts: &[Ta
                     let (resp, trace) = w.send(&req).await;
                     cx.rep.add("evaluations", 1);
                     cx.rep.add("cells_admin", 1);
+                    // db.set_api_key must be refused for the primary database,
+                    // for a database that does not exist and on a keyless
+                    // instance — in the generated-key form exactly as in the
+                    // explicit form
+                    if t.kind == TargetKind::Root
+                        && resp.status == 200
+                        && let BodyKind::Method { name, variant } = &b.kind
+                        && name == "db.set_api_key"
+                        && let Some((form, i)) = match variant {
+                            Variant::GenKeyFor(i) => Some(("generated", *i)),
+                            Variant::ExplicitKeyFor(i) => Some(("explicit", *i)),
+                            _ => None,
+                        }
+                    {
+                        let why = if !m.admin {
+                            Some("keyless-instance")
+                        } else if NAMED_CLASS[i] != "tenant" {
+                            Some(NAMED_CLASS[i])
+                        } else {
+                            None
+                        };
+                        if let Some(why) = why {
+                            // what the handed-out / bound key then reaches
+                            let key = resp
+                                .result()
+                                .and_then(|r| r.get("api_key").and_then(|k| k.as_str().map(|s| s.to_string())))
+                                .unwrap_or_else(|| "explicit-key-2718".to_string());
+                            let probe = rpc(&format!("/{}", NAMED[i]), Auth::Bearer(key), Enc::Json, "db.metadata", Value::Null);
+                            let (presp, _) = w.send(&probe).await;
+                            cx.violate(
+                                format!("C14|set-api-key-not-refused|{form}|{why}"),
+                                format!(
+                                    "db.set_api_key ({form} key) for `{}` is accepted; the key then gets {} for db.metadata on it",
+                                    NAMED[i], presp.status
+                                ),
+                                phase,
+                                p,
+                                t,
+                                Some(enc),
+                                Some(b),
+                                &req,
+                                &resp,
+                                json!({"probe_with_the_key": {"request": probe.to_json(), "response": presp.to_json()}}),
+                            );
+                        }
+                    }
                     cx.distinct("admin", p, &tclass, Some(enc), Some(b));
                     maybe_sample(cx, phase, p, t, enc, b, &resp, &trace);
                     if resp.status == 200
